@@ -14,15 +14,17 @@ fields and no missing value, one target chart per source chart, source untouched
 What is proved here:
 * `cast_exact`, `cast_col_exact`, `cast_unmapped_default`, `cast_fields`  — `ConvertBase.cast` for *every* row
   labelling of the source (history independence: `cast_label_independent`);
+* `convert_svs`, `convert_fields`, `converters_spec` — the same for the SV and the fields/no-NaN clauses;
 * `convOne_content`, `convert_content`, `converters_content_and_count` — a converter whose table entry passes
   `staticOk` yields, chart by chart, exactly the source's rows (shift `k` only through the shift parameter), for
   every source with arbitrary labels and any number of maps, through all five loop shapes;
 * `one_per_source`    — every good loop shape returns one chart per source map;
 * `table_*`           — by `decide` over the generated table: every entry passes `staticOk` (hits←hits, holds←holds,
   bpms←bpms with the identity column mapping, the declared target class, svs for osu↔Quaver), metadata provenance,
-  loop shapes, shift parameters, no label-aligned entry (D27 repaired) and the `[]` defaults (exactly where finding
-  D08 sits);
-* counterexample theorems for D08, D27 / D11 (the label-aligned assignment, on a hand-written entry), D13 (shape).
+  loop shapes, shift parameters, no label-aligned entry (D27 repaired), no NaN among the defaults `empty` writes
+  (D08 repaired), the `[]` defaults;
+* counterexample theorems for D08 (a hand-written pre-fix `empty`), D27 / D11 (the label-aligned assignment, on a
+  hand-written entry), D13 (shape).
 `untouched` is not a theorem: the model is functional; aliasing is runtime behaviour checked by (S) on every case.
 -/
 import Reamber.Lemmas.Convert
@@ -90,8 +92,8 @@ theorem valAfter_noNan (src : Frame) (hsrc : ∀ p ∈ src.cols, ∀ x ∈ p.2, 
     · exact h0
 
 /-- **Only the target's fields, no missing value** (`fields_complete` at the level of one cast): positional
-entries, no NaN in the source, no NaN among the declared defaults (i.e. no `[]` default — D08 is exactly the
-failure of this hypothesis) ⇒ the result has exactly the declared column names and contains no NaN. -/
+entries, no NaN in the source, no NaN among the defaults (`table_defaults_no_nan`: true of every generated list
+class now that `empty` writes one list per row for a `[]` default; see `cast_fields_generated`) ⇒ the result has exactly the declared column names and contains no NaN. -/
 theorem cast_fields (lists : List (String × Frame)) (src : Frame) (hwf : src.WF)
     (schema : List (String × Cell)) (mapping : List (String × MapFrom)) (hp : PosOnly src mapping)
     (hsrc : ∀ p ∈ src.cols, ∀ x ∈ p.2, x ≠ Cell.nan) (hd : ∀ p ∈ schema, p.2 ≠ Cell.nan) :
@@ -258,7 +260,8 @@ theorem table_shift_params : (converters.filter (·.shiftParam.isSome)).map (fun
 is repaired: a Series-valued entry reappearing anywhere breaks this obligation) -/
 theorem table_labels_free : ∀ c ∈ converters, labelsFree c = true := by decide +kernel
 
-/-- a `[]` default (→ NaN, finding D08) is declared exactly by the list classes the five converters into Quaver build -/
+/-- a `[]` default (one fresh list per row; NaN before D08 was repaired) is declared exactly by the list classes the
+five converters into Quaver build -/
 theorem table_list_defaults : ∀ c ∈ converters, tgtHasListDefault tables c = (c.tgtGame == "qua") := by decide +kernel
 
 /-! ## counterexamples: where the hypotheses fail, the model (= the code) breaks the specification -/
@@ -280,10 +283,23 @@ def verdictOf (name : String) (src : Src) (k : Int) : Option Verdict :=
 example : verdictOf "BMSToSM.convert" ⟨[], [exBmsMap [0, 1]]⟩ 0 = some ⟨true, true, true, true, true⟩ := by
   decide +kernel
 
-/-- **D08** (open): every conversion into Quaver leaves `keysounds` NaN — the `fields` clause fails, everything
-else holds.  The hypothesis `hd` of `cast_fields` (no `[]` default) is what fails. -/
+/-- `TimedList.empty` as it was before D08 was repaired, written out by hand: the one-row default frame replicated —
+a `[]` default is an *empty* Series there, so the row holds NaN -/
+def emptyPreFix (props : List (String × Dflt)) (n : Nat) : Frame :=
+  ⟨rangeIdx n, props.map fun p => (p.1, List.replicate n (match p.2 with | .scalar c => c | .emptyList => Cell.nan))⟩
+
+/-- **D08** (repaired): for the columns of a Quaver hit list (hand-written: `column=0, offset=0.0, keysounds=[]`)
+the pre-fix `empty` holds NaN `keysounds` — the `fields` clause of every conversion into Quaver failed; the
+repaired `empty` holds one list per row and no NaN. -/
 theorem d08_counterexample :
-    verdictOf "BMSToQua.convert" ⟨[], [exBmsMap [0, 1]]⟩ 0 = some ⟨true, true, true, false, true⟩ := by
+    let props : List (String × Dflt) := [("column", .scalar (.num 0)), ("offset", .scalar (.num 0)), ("keysounds", .emptyList)]
+    noNan (emptyPreFix props 2) = false ∧
+    noNan (empty (props.map fun p => (p.1, defaultCell p.2)) 2) = true := by decide +kernel
+
+/-- all clauses hold for a BMS chart converted into Quaver (the `fields` clause failed here before D08 was repaired) -/
+theorem d08_repaired_ok :
+    verdictOf "BMSToQua.convert" ⟨[], [exBmsMap [0, 1]]⟩ 0 = some ⟨true, true, true, true, true⟩ ∧
+    verdictOf "BMSToQua.convert" ⟨[], [exBmsMap [5, 2]]⟩ 0 = some ⟨true, true, true, true, true⟩ := by
   decide +kernel
 
 /-- `BMSToOsu` as it was before D27 was repaired, written out by hand (not taken from the generated table):
@@ -352,6 +368,21 @@ theorem d12_static_counterexample :
     let c' := { c with casts := c.casts.map fun cc => if cc.tgtAttr == "svs" then { cc with tgtAttr := "sv" } else cc }
     staticOk tables c' = false := by
   decide +kernel
+
+/-- **No default is a missing value** (D08 repaired): what `empty` writes for any declared default of any
+generated list class is not NaN. -/
+theorem table_defaults_no_nan : ∀ lc ∈ listClasses, ∀ p ∈ schemaOf lc, p.2 ≠ Cell.nan := by decide +kernel
+
+/-- `cast_fields` for every generated list class — Quaver included — with no hypothesis about defaults -/
+theorem cast_fields_generated (lc : ListClass) (hlc : lc ∈ listClasses) (lists : List (String × Frame)) (src : Frame)
+    (hwf : src.WF) (mapping : List (String × MapFrom)) (hp : PosOnly src mapping)
+    (hsrc : ∀ p ∈ src.cols, ∀ x ∈ p.2, x ≠ Cell.nan) :
+    ∃ out, cast lists src (schemaOf lc) mapping = .ok out ∧ out.names = lc.props.map (·.1) ∧ noNan out = true ∧
+      out.index = rangeIdx src.nrows := by
+  obtain ⟨out, h1, h2, h3, h4⟩ := cast_fields lists src hwf (schemaOf lc) mapping hp hsrc (table_defaults_no_nan lc hlc)
+  refine ⟨out, h1, ?_, h3, h4⟩
+  rw [h2, schemaOf, List.map_map]
+  rfl
 
 /-! ## one pass of a converter body preserves the content -/
 
@@ -806,5 +837,511 @@ theorem converters_content_and_count : ∀ c ∈ converters, ∀ (src : Src) (k 
   intro c hc src k out hsrc h
   exact ⟨convert_content tables c src k out (table_static_ok c hc) hsrc h,
          one_per_source tables c src k out (table_shapes c hc) h⟩
+
+/-! ## SVs and fields of a whole conversion -/
+
+/-- the restack step of `convOne` on one list -/
+def restackOf (c : Conv) (k : Int) (s0 : Nat) (f : Frame) : Frame :=
+  match c.shiftParam with
+  | none => f
+  | some _ => relabel s0 (addCol k f)
+
+theorem convOne_inv (T : Tables) (c : Conv) (src : Src) (cur : SrcMap) (k : Int) (t : TChart)
+    (h : convOne T c src cur k = .ok t) :
+    ∃ fh fl fb fs me a b d, req (listFor T c cur "hits") = .ok fh ∧ req (listFor T c cur "holds") = .ok fl ∧
+      req (listFor T c cur "bpms") = .ok fb ∧ listFor T c cur "svs" = .ok fs ∧
+      metasAt c src (some cur) "map" c.metas [] = .ok me ∧
+      t = ⟨restackOf c k a fh, restackOf c k b fl, restackOf c k d fb, fs.map (restackOf c k 0), me⟩ := by
+  unfold convOne at h
+  split at h
+  · cases h
+  · split at h
+    · rename_i fh fl fb fs me rh rl rb rs rm
+      cases hsp : c.shiftParam with
+      | none =>
+        simp only [hsp, Except.ok.injEq] at h
+        subst h
+        refine ⟨fh, fl, fb, fs, me, 0, 0, 0, rh, rl, rb, rs, rm, ?_⟩
+        cases fs <;> simp [restackOf, hsp]
+      | some p =>
+        simp only [hsp, Except.ok.injEq] at h
+        subst h
+        refine ⟨fh, fl, fb, fs, me, (fs.map (·.nrows)).getD 0, (fs.map (·.nrows)).getD 0 + fh.nrows,
+          (fs.map (·.nrows)).getD 0 + fh.nrows + fl.nrows, rh, rl, rb, rs, rm, ?_⟩
+        have e : (fun f => relabel 0 (addCol k f)) = restackOf c k 0 := by
+          funext f; simp [restackOf, hsp]
+        simp [restackOf, hsp, e]
+    all_goals cases h
+
+theorem projRows_restacked_svs (k : Int) (s0 : Nat) (f : Frame) :
+    projRows (relabel s0 (addCol k f)) keysSvs = projRows f keysSvs := by
+  have e1 : ("offset" == "column") = false := by decide
+  have e4 : ("multiplier" == "column") = false := by decide
+  unfold projRows
+  rw [restacked_nrows]
+  simp only [keysSvs, colsOf, restacked_col, e1, e4]
+  simp
+
+theorem projRows_restackOf_svs (c : Conv) (k : Int) (s0 : Nat) (f : Frame) :
+    projRows (restackOf c k s0 f) keysSvs = projRows f keysSvs := by
+  unfold restackOf
+  split
+  · rfl
+  · exact projRows_restacked_svs k s0 f
+
+/-- **SVs carried by one pass** (model ⊨ `svsOk`) -/
+theorem convOne_svs (T : Tables) (c : Conv) (src : Src) (cur : SrcMap) (k : Int) (t : TChart)
+    (hst : staticOk T c = true) (hsv : srcSvsOk T c cur = true)
+    (h : convOne T c src cur k = .ok t) : svsOk T.mcs c.srcGame c.tgtGame cur t = true := by
+  unfold svsOk
+  by_cases hh : (hasSvs T.mcs c.srcGame && hasSvs T.mcs c.tgtGame) = true
+  · simp only [hh, if_true]
+    simp only [srcSvsOk, hh, if_true] at hsv
+    simp only [staticOk, Bool.and_eq_true] at hst
+    obtain ⟨⟨_, hS⟩, _⟩ := hst
+    simp only [svsStaticOk, hh, if_true] at hS
+    split at hsv
+    · rename_i s es
+      obtain ⟨fh, fl, fb, fs, me, a, b, d, _, _, _, rs, _, rfl⟩ := convOne_inv T c src cur k t h
+      obtain ⟨cc, lc, hd, hl, _, _, _, _⟩ := castStaticOk_unpack T c "svs" keysSvs hS
+      -- the list exists in the target: `listFor` returned `some`
+      have hsome : ∃ f, fs = some f := by
+        simp only [listFor, hd, hl] at rs
+        split at rs
+        · cases rs
+        · simp only [Except.ok.injEq] at rs
+          exact ⟨_, rs.symm⟩
+      obtain ⟨f, rfl⟩ := hsome
+      have hreq : req (listFor T c cur "svs") = .ok f := by rw [rs]; rfl
+      obtain ⟨cs, ns⟩ := listFor_of_static T c cur "svs" keysSvs f s hS es hreq
+      simp only [es, Option.map_some]
+      apply sameRows_of_eq _ _ _ _ hsv
+      rw [projRows_restackOf_svs]
+      exact projRows_congr _ _ _ cs ns
+    · cases hsv
+  · simp [hh]
+
+/-! ### fields -/
+
+def FieldsInv (names : List String) (b : Frame) : Prop :=
+  b.names = names ∧ (∀ p ∈ b.cols, p.2.length = b.index.length) ∧ (∀ p ∈ b.cols, ∀ x ∈ p.2, x ≠ Cell.nan)
+
+theorem setCol_mem (cols : List (String × List Cell)) (t : String) (v : List Cell) (p : String × List Cell)
+    (hp : p ∈ setCol cols t v) : p.2 = v ∨ p ∈ cols := by
+  simp only [setCol, List.mem_map] at hp
+  obtain ⟨q, hq, rfl⟩ := hp
+  split
+  · left; rfl
+  · right; exact hq
+
+theorem mapE_strCell_noNan : ∀ (v v' : List Cell), mapE strCell v = .ok v' → ∀ x ∈ v', x ≠ Cell.nan
+  | [], v', h => by
+    simp only [mapE, Except.ok.injEq] at h
+    subst h; simp
+  | a :: t, v', h => by
+    simp only [mapE] at h
+    split at h
+    · cases h
+    · rename_i b hb
+      split at h
+      · cases h
+      · rename_i r hr
+        simp only [Except.ok.injEq] at h
+        subst h
+        intro x hx
+        simp only [List.mem_cons] at hx
+        rcases hx with rfl | hx
+        · cases a <;> simp [strCell] at hb
+          subst hb; simp
+        · exact mapE_strCell_noNan t r hr x hx
+
+theorem evalFrom_ok_props (lists : List (String × Frame)) (src : Frame) (bufIdx : List Int) (fr : MapFrom)
+    (v : List Cell) (hfr : isAttr fr = true) (hsrc : ∀ p ∈ src.cols, ∀ x ∈ p.2, x ≠ Cell.nan)
+    (h : evalFrom lists src bufIdx fr = .ok v) : v.length = bufIdx.length ∧ ∀ x ∈ v, x ≠ Cell.nan := by
+  cases fr with
+  | attr c =>
+    simp only [evalFrom] at h
+    split at h
+    · rename_i v0 hv0
+      split at h
+      · rename_i hl
+        simp only [Except.ok.injEq] at h
+        subst h
+        exact ⟨hl, hsrc (c, v0) (lookup_mem c v0 src.cols hv0)⟩
+      · cases h
+    · cases h
+  | seriesStr _ _ => simp [isAttr] at hfr
+  | arrayStr l c =>
+    simp only [evalFrom] at h
+    split at h
+    · cases h
+    · split at h
+      · cases h
+      · split at h
+        · cases h
+        · rename_i v1 hv1
+          split at h
+          · rename_i hl
+            simp only [Except.ok.injEq] at h
+            subst h
+            exact ⟨hl, mapE_strCell_noNan _ _ hv1⟩
+          · cases h
+  | «opaque» _ => simp [isAttr] at hfr
+
+theorem castGo_fields (lists : List (String × Frame)) (src : Frame) (names : List String)
+    (hsrc : ∀ p ∈ src.cols, ∀ x ∈ p.2, x ≠ Cell.nan) :
+    ∀ (mapping : List (String × MapFrom)) (b out : Frame), (∀ p ∈ mapping, isAttr p.2 = true) →
+      FieldsInv names b → castGo lists src mapping b = .ok out → FieldsInv names out
+  | [], b, out, _, hb, h => by
+    simp only [castGo, Except.ok.injEq] at h
+    subst h; exact hb
+  | (t, fr) :: rest, b, out, hm, hb, h => by
+    simp only [castGo] at h
+    split at h
+    · cases h
+    · rename_i v hv
+      obtain ⟨hl, hn⟩ := evalFrom_ok_props lists src b.index fr v (hm (t, fr) (by simp)) hsrc hv
+      obtain ⟨b1, b2, b3⟩ := hb
+      refine castGo_fields lists src names hsrc rest _ out (fun p hp => hm p (by simp [hp])) ?_ h
+      refine ⟨?_, ?_, ?_⟩
+      · simpa [Frame.names, setCol_names] using b1
+      · intro p hp
+        rcases setCol_mem b.cols t v p hp with e | e
+        · rw [e]; exact hl
+        · exact b2 p e
+      · intro p hp
+        rcases setCol_mem b.cols t v p hp with e | e
+        · rw [e]; exact hn
+        · exact b3 p e
+
+theorem empty_fields (lc : ListClass) (n : Nat) (hd : ∀ p ∈ schemaOf lc, p.2 ≠ Cell.nan) :
+    FieldsInv (lc.props.map (·.1)) (empty (schemaOf lc) n) := by
+  refine ⟨?_, ?_, ?_⟩
+  · simp [empty, Frame.names, schemaOf, List.map_map, Function.comp]
+  · intro p hp
+    simp only [empty, List.mem_map] at hp
+    obtain ⟨q, _, rfl⟩ := hp
+    simp [rangeIdx, empty]
+  · intro p hp x hx
+    simp only [empty, List.mem_map] at hp
+    obtain ⟨q, hq, rfl⟩ := hp
+    rw [List.mem_replicate] at hx
+    rw [hx.2]; exact hd q hq
+
+theorem frameFieldsOk_of_inv (lc : ListClass) (f : Frame) (h : FieldsInv (lc.props.map (·.1)) f) :
+    frameFieldsOk lc f = true := by
+  obtain ⟨h1, h2, h3⟩ := h
+  simp only [frameFieldsOk, Bool.and_eq_true, List.all_eq_true, beq_iff_eq, noNan, bne_iff_ne, ne_eq]
+  refine ⟨⟨?_, fun p hp => h2 p hp⟩, fun p hp x hx => h3 p hp x hx⟩
+  rw [h1]
+  exact List.isPerm_iff.mpr (List.Perm.refl _)
+
+theorem restackOf_inv (c : Conv) (k : Int) (s0 : Nat) (names : List String) (f : Frame) (h : FieldsInv names f) :
+    FieldsInv names (restackOf c k s0 f) := by
+  unfold restackOf
+  split
+  · exact h
+  · obtain ⟨h1, h2, h3⟩ := h
+    refine ⟨?_, ?_, ?_⟩
+    · rw [← h1]
+      simp only [Frame.names, relabel, addCol, List.map_map]
+      apply List.map_congr_left
+      intro p _
+      simp only [Function.comp]
+      split <;> rfl
+    · intro p hp
+      simp only [relabel, addCol, List.mem_map] at hp
+      obtain ⟨q, hq, rfl⟩ := hp
+      have := h2 q hq
+      simp only [relabel, addCol, Frame.nrows, List.length_map, List.length_range]
+      split <;> simp [this]
+    · intro p hp x hx
+      simp only [relabel, addCol, List.mem_map] at hp
+      obtain ⟨q, hq, rfl⟩ := hp
+      split at hx
+      · simp only [List.mem_map] at hx
+        obtain ⟨y, hy, rfl⟩ := hx
+        have := h3 q hq y hy
+        cases y <;> simp_all [addCell]
+      · exact h3 q hq x hx
+
+theorem lastCast_mem (c : Conv) (attr : String) (cc : CastCall) (h : lastCast c attr = some cc) : cc ∈ c.casts := by
+  unfold lastCast at h
+  have := List.mem_of_find?_eq_some h
+  simpa using this
+
+theorem findClass_mem (lcs : List ListClass) (name : String) (lc : ListClass) (h : findClass lcs name = some lc) :
+    lc ∈ lcs := List.mem_of_find?_eq_some h
+
+theorem runCast_fields (T : Tables) (c : Conv) (cur : SrcMap) (cc : CastCall) (f : Frame) (lc : ListClass)
+    (hcls : findClass T.lcs cc.cls = some lc) (hlf : ∀ p ∈ cc.mapping, isAttr p.2 = true)
+    (hnn : srcNoNan cur = true) (hdef : ∀ lc ∈ T.lcs, ∀ p ∈ schemaOf lc, p.2 ≠ Cell.nan)
+    (h : runCast T c cur cc = .ok f) : FieldsInv (lc.props.map (·.1)) f := by
+  unfold runCast at h
+  split at h
+  · cases h
+  · rename_i sf hsf
+    simp only [hcls, cast] at h
+    have hmem : (cc.srcAttr, sf) ∈ cur.lists := by
+      unfold srcFrame at hsf
+      split at hsf
+      · split at hsf
+        · rename_i f' hf'
+          simp only [Except.ok.injEq] at hsf
+          subst hsf
+          exact lookup_mem _ _ _ hf'
+        · cases hsf
+      · cases hsf
+    have hsrc : ∀ p ∈ sf.cols, ∀ x ∈ p.2, x ≠ Cell.nan := by
+      simp only [srcNoNan, List.all_eq_true, Bool.and_eq_true] at hnn
+      have := (hnn _ hmem).1
+      simp only [noNan, List.all_eq_true, bne_iff_ne, ne_eq] at this
+      exact this
+    exact castGo_fields cur.lists sf _ hsrc cc.mapping _ f hlf
+      (empty_fields lc sf.nrows (hdef lc (findClass_mem _ _ _ hcls))) h
+
+/-- the list `attr` of the target after the body ran has exactly the declared fields and no NaN -/
+theorem listFor_fields (T : Tables) (c : Conv) (cur : SrcMap) (attr : String) (f : Frame)
+    (hdecl : ∀ cc, lastCast c attr = some cc → declaredCls T.mcs c attr = some cc.cls)
+    (hlf : labelsFree c = true) (hnn : srcNoNan cur = true)
+    (hdef : ∀ lc ∈ T.lcs, ∀ p ∈ schemaOf lc, p.2 ≠ Cell.nan)
+    (h : listFor T c cur attr = .ok (some f)) :
+    ∃ lc, (declaredCls T.mcs c attr).bind (findClass T.lcs) = some lc ∧ FieldsInv (lc.props.map (·.1)) f := by
+  unfold listFor at h
+  split at h
+  · cases h
+  · rename_i clsName hd
+    split at h
+    · rename_i cc hl
+      split at h
+      · cases h
+      · rename_i f' hf'
+        simp only [Except.ok.injEq, Option.some.injEq] at h
+        subst h
+        have hd' := hdecl cc hl
+        rw [hd] at hd'
+        simp only [Option.some.injEq] at hd'
+        subst hd'
+        -- the class exists (else `runCast` fails)
+        cases hc : findClass T.lcs cc.cls with
+        | none =>
+          simp only [runCast, hc] at hf'
+          split at hf' <;> cases hf'
+        | some lc =>
+          refine ⟨lc, by simp [hd, hc], ?_⟩
+          have hmap : ∀ p ∈ cc.mapping, isAttr p.2 = true := by
+            simp only [labelsFree, List.all_eq_true] at hlf
+            exact hlf cc (lastCast_mem c attr cc hl)
+          exact runCast_fields T c cur cc f' lc hc hmap hnn hdef hf'
+    · split at h
+      · rename_i lc hc
+        simp only [Except.ok.injEq, Option.some.injEq] at h
+        subst h
+        exact ⟨lc, by simp [hd, hc], empty_fields lc 0 (hdef lc (findClass_mem _ _ _ hc))⟩
+      · cases h
+
+theorem listFieldsOk_of (T : Tables) (c : Conv) (attr : String) (f : Frame) (lc : ListClass)
+    (h1 : (declaredCls T.mcs c attr).bind (findClass T.lcs) = some lc) (h2 : FieldsInv (lc.props.map (·.1)) f) :
+    listFieldsOk T c.tgtMapClass attr f = true := by
+  unfold listFieldsOk
+  unfold declaredCls at h1
+  cases hd : ((T.mcs.find? (·.name == c.tgtMapClass)).bind (·.lists.lookup attr)) with
+  | none => simp [hd] at h1
+  | some cls =>
+    simp only [hd, Option.bind_some] at h1
+    simp only [h1]
+    exact frameFieldsOk_of_inv lc f h2
+
+theorem req_ok (o : Except Err (Option Frame)) (f : Frame) (h : req o = .ok f) : o = .ok (some f) := by
+  unfold req at h
+  split at h
+  · cases h
+  · cases h
+  · simp only [Except.ok.injEq] at h
+    subst h; rfl
+
+theorem hdecl_of_static (T : Tables) (c : Conv) (attr : String) (keys : List String)
+    (h : castStaticOk T c attr keys = true) :
+    ∀ cc, lastCast c attr = some cc → declaredCls T.mcs c attr = some cc.cls := by
+  obtain ⟨cc0, _, hd, hl, _⟩ := castStaticOk_unpack T c attr keys h
+  intro cc hcc
+  rw [hl] at hcc
+  simp only [Option.some.injEq] at hcc
+  subst hcc
+  exact hd
+
+theorem listFor_none (T : Tables) (c : Conv) (cur : SrcMap) (attr : String)
+    (h : listFor T c cur attr = .ok none) : declaredCls T.mcs c attr = none := by
+  unfold listFor at h
+  split at h
+  · assumption
+  · split at h
+    · split at h <;> cases h
+    · split at h <;> cases h
+
+/-- **Only the target's fields, no missing value, after one pass** (model ⊨ `fieldsOk`): every list of the target
+chart has exactly the columns its class declares, full length, no NaN — for every target game (Quaver included). -/
+theorem convOne_fields (T : Tables) (c : Conv) (src : Src) (cur : SrcMap) (k : Int) (t : TChart)
+    (hst : staticOk T c = true) (hlf : labelsFree c = true) (hnn : srcNoNan cur = true)
+    (hdef : ∀ lc ∈ T.lcs, ∀ p ∈ schemaOf lc, p.2 ≠ Cell.nan)
+    (h : convOne T c src cur k = .ok t) : fieldsOk T c.tgtMapClass t = true := by
+  obtain ⟨fh, fl, fb, fs, me, a, b, d, rh, rl, rb, rs, _, rfl⟩ := convOne_inv T c src cur k t h
+  simp only [staticOk, Bool.and_eq_true] at hst
+  obtain ⟨⟨⟨⟨⟨⟨_, _⟩, hH⟩, hL⟩, hB⟩, hS⟩, _⟩ := hst
+  have one : ∀ (attr : String) (keys : List String) (f : Frame) (s0 : Nat), castStaticOk T c attr keys = true →
+      req (listFor T c cur attr) = .ok f → listFieldsOk T c.tgtMapClass attr (restackOf c k s0 f) = true := by
+    intro attr keys f s0 hs hr
+    obtain ⟨lc, h1, h2⟩ := listFor_fields T c cur attr f (hdecl_of_static T c attr keys hs) hlf hnn hdef (req_ok _ _ hr)
+    exact listFieldsOk_of T c attr _ lc h1 (restackOf_inv c k s0 _ f h2)
+  simp only [fieldsOk, Bool.and_eq_true]
+  refine ⟨⟨⟨one "hits" keysHits fh a hH rh, one "holds" keysHolds fl b hL rl⟩, one "bpms" keysBpms fb d hB rb⟩, ?_⟩
+  cases fs with
+  | none =>
+    have := listFor_none T c cur "svs" rs
+    simp only [Option.map_none]
+    unfold declaredCls at this
+    simp [this]
+  | some f =>
+    simp only [Option.map_some]
+    have hdecl : ∀ cc, lastCast c "svs" = some cc → declaredCls T.mcs c "svs" = some cc.cls := by
+      unfold svsStaticOk at hS
+      split at hS
+      · exact hdecl_of_static T c "svs" keysSvs hS
+      · intro cc hcc
+        rw [hcc] at hS
+        simp at hS
+    obtain ⟨lc, h1, h2⟩ := listFor_fields T c cur "svs" f hdecl hlf hnn hdef rs
+    exact listFieldsOk_of T c "svs" _ lc h1 (restackOf_inv c k 0 _ f h2)
+
+/-- a statement about every pass of the body holds for every (source map, target chart) pair of the result -/
+theorem convert_zip_all (T : Tables) (c : Conv) (src : Src) (k : Int) (out : Out) (Q : SrcMap → TChart → Bool)
+    (hst : staticOk T c = true)
+    (hq : ∀ m ∈ src.maps, ∀ t, convOne T c src m k = .ok t → Q m t = true)
+    (h : convert T c src k = .ok out) :
+    (src.maps.zip out.pairs).all (fun p => Q p.1 p.2.2) = true := by
+  unfold convert at h
+  split at h
+  · -- single
+    split at h
+    · rename_i m hm
+      split at h
+      · cases h
+      · rename_i t ht
+        simp only [Except.ok.injEq] at h
+        subst h
+        simp only [hm, Out.pairs, List.flatMap_cons, List.flatMap_nil, List.map_cons, List.map_nil, List.append_nil,
+          List.zip_cons_cons, List.zip_nil_right, List.all_cons, List.all_nil, Bool.and_true]
+        exact hq m (by simp [hm]) t ht
+    · cases h
+  · -- singleSet
+    split at h
+    · rename_i m hm
+      split at h
+      · cases h
+      · rename_i g hg
+        simp only [Except.ok.injEq] at h
+        subst h
+        obtain ⟨t, sm, rfl, ht⟩ := convSet_inv T c src k m g hg
+        simp only [hm, Out.pairs, List.flatMap_cons, List.flatMap_nil, List.map_cons, List.map_nil, List.append_nil,
+          List.zip_cons_cons, List.zip_nil_right, List.all_cons, List.all_nil, Bool.and_true]
+        exact hq m (by simp [hm]) t ht
+    · cases h
+  · -- listOfMaps
+    split at h
+    · cases h
+    · rename_i ts hts
+      simp only [Except.ok.injEq] at h
+      subst h
+      rw [pairs_singletons]
+      exact mapE_zip_all _ _ _ _ ts hts hq
+  · -- listOfSets
+    split at h
+    · cases h
+    · rename_i gs hgs
+      simp only [Except.ok.injEq] at h
+      subst h
+      exact mapE_convSet_zip_all T c src k _ _ gs hgs hq
+  · -- mergedSet
+    split at h
+    · cases h
+    · rename_i ts hts
+      split at h
+      · cases h
+      · rename_i sm _
+        simp only [Except.ok.injEq] at h
+        subst h
+        rw [pairs_merged]
+        exact mapE_zip_all _ _ _ _ ts hts hq
+  · -- mergedSetInLoop: excluded by staticOk
+    simp only [staticOk, Bool.and_eq_true] at hst
+    simp_all [goodShape]
+  · cases h
+  · cases h
+
+
+theorem zip_all_snd {α β} (P : β → Bool) : ∀ (l : List α) (r : List β), l.length = r.length →
+    (l.zip r).all (fun p => P p.2) = true → r.all P = true
+  | [], [], _, _ => rfl
+  | [], _ :: _, h, _ => by simp at h
+  | _ :: _, [], h, _ => by simp at h
+  | a :: l, b :: r, h, hz => by
+    simp only [List.zip_cons_cons, List.all_cons, Bool.and_eq_true] at hz ⊢
+    exact ⟨hz.1, zip_all_snd P l r (by simpa using h) hz.2⟩
+
+theorem pairs_length (o : Out) : o.pairs.length = o.charts.length := by
+  obtain ⟨il, gs⟩ := o
+  simp only [Out.pairs, Out.charts]
+  induction gs with
+  | nil => rfl
+  | cons g t ih => simp [List.flatMap_cons, ih]
+
+/-- **SVs carried by every converter** (model ⊨ `specAll.svs`) -/
+theorem convert_svs (T : Tables) (c : Conv) (src : Src) (k k' : Int) (out : Out)
+    (hst : staticOk T c = true) (hsrc : ∀ m ∈ src.maps, srcSvsOk T c m = true)
+    (h : convert T c src k = .ok out) :
+    (specAll T c.srcGame c.tgtGame c.tgtMapClass src k' out).svs = true :=
+  convert_zip_all T c src k out (fun m t => svsOk T.mcs c.srcGame c.tgtGame m t) hst
+    (fun m hm t ht => convOne_svs T c src m k t hst (hsrc m hm) ht) h
+
+/-- a statement about every produced chart -/
+theorem convert_all_charts (T : Tables) (c : Conv) (src : Src) (k : Int) (out : Out) (F : TChart → Bool)
+    (hst : staticOk T c = true)
+    (hq : ∀ m ∈ src.maps, ∀ t, convOne T c src m k = .ok t → F t = true)
+    (h : convert T c src k = .ok out) : out.pairs.all (fun p => F p.2) = true := by
+  have hz := convert_zip_all T c src k out (fun _ t => F t) hst hq h
+  have hshape : goodShape c.shape = true := by
+    simp only [staticOk, Bool.and_eq_true] at hst
+    exact hst.1.1.1.1.1.2
+  have hone := one_per_source T c src k out hshape h
+  simp only [onePerSource, beq_iff_eq] at hone
+  exact zip_all_snd (fun p : TGroup × TChart => F p.2) src.maps out.pairs (by rw [pairs_length, hone]) hz
+
+/-- **Only the target's fields, no missing value, for every converter** (model ⊨ `specAll.fields`) -/
+theorem convert_fields (T : Tables) (c : Conv) (src : Src) (k k' : Int) (out : Out)
+    (hst : staticOk T c = true) (hlf : labelsFree c = true)
+    (hdef : ∀ lc ∈ T.lcs, ∀ p ∈ schemaOf lc, p.2 ≠ Cell.nan)
+    (hsrc : ∀ m ∈ src.maps, srcNoNan m = true)
+    (h : convert T c src k = .ok out) :
+    (specAll T c.srcGame c.tgtGame c.tgtMapClass src k' out).fields = true :=
+  convert_all_charts T c src k out (fieldsOk T c.tgtMapClass) hst
+    (fun m hm t ht => convOne_fields T c src m k t hst hlf (hsrc m hm) hdef ht) h
+
+/-- **The shipped converters, all clauses but metadata**: for each of the 17 generated entries, every well-formed
+source without missing values (any row labels, any number of maps), every shift argument: a successful conversion
+returns one chart per source map; chart `i` holds exactly the hits / holds / tempo points of source map `i` (column
+shifted by the shift argument only) and its SVs when both games have them; every list of every chart has exactly
+the declared fields and no NaN. -/
+theorem converters_spec : ∀ c ∈ converters, ∀ (src : Src) (k : Int) (out : Out),
+    srcOk tables c src = true → convert tables c src k = .ok out →
+    let v := specAll tables c.srcGame c.tgtGame c.tgtMapClass src (effShift c k) out
+    v.onePer = true ∧ v.content = true ∧ v.svs = true ∧ v.fields = true := by
+  intro c hc src k out hsrc h
+  simp only [srcOk, List.all_eq_true, Bool.and_eq_true] at hsrc
+  have hst := table_static_ok c hc
+  exact ⟨one_per_source tables c src k out (table_shapes c hc) h,
+         convert_content tables c src k out hst (fun m hm => (hsrc m hm).1.1) h,
+         convert_svs tables c src k _ out hst (fun m hm => (hsrc m hm).1.2) h,
+         convert_fields tables c src k _ out hst (table_labels_free c hc) table_defaults_no_nan
+           (fun m hm => (hsrc m hm).2) h⟩
 
 end Reamber.Convert
